@@ -7,6 +7,16 @@ direct oracle:  the .vcd file parsed by an independent reader (c16_vcdparse.py),
                 Python and compared with the values sampled from the simulator at every clock edge, for every
                 signal of every component; clock lines; textwave_dict entries.
 
+Three streams of designs: (1) random component trees, one simulator at a time; (2) hierarchical designs with value nets
+that contain no whole signal (bit-reversal / byte-swap wrappers, wires assembled from slices and constants, struct wires
+assembled field by field), each built several times in this process because the order of get_all_value_nets() (is such a
+net enumerated before the clock net?) follows object ids; (3) groups of 2-4 simulators (instances of one class and of
+different classes) that are alive together and advanced in interleaved orders (one never ticked, one created after another
+already ran): every simulator's VCD, text-wave record and print_textwave() output must show its OWN sampled values.
+The net table of make_vcd_func (kept nets, clock index, symbol of every `$var`) is compared with Model/VCD.netTable on
+every design: input = get_all_value_nets() re-read in the harness + the `$var` order of the file; real values = the `$var`
+lines, the header value lines and the local variables clock_symbol / net_details kept alive in the closure of the dump function.
+
 Sampling point. sim_tick = [update blocks] + [dump_vcd, dump_wav, <hooks>] + [ff blocks, flip, ...] + [update blocks]
 (PrepareSimPass.create_sim_tick / collect_ff_funcs), sim_reset calls the same ff list three times. The values
 "at the clock edge of cycle t" are what the signals hold when the ff list starts. They are sampled by a reader
@@ -25,7 +35,7 @@ from . import c16_vcdparse as VP
 
 PID = 'C16'
 DRIVERS = ['vcd']
-MODULE = ['PymtlVerif.Props.C16', 'PymtlVerif.Props.C16Gen']
+MODULE = ['PymtlVerif.Props.C16', 'PymtlVerif.Props.C16Gen', 'PymtlVerif.Props.C16n']
 THEOREMS = ['PV.C16.' + t for t in [
   'replay_dump', 'replay_dump_zero_init', 'replay_signal', 'shared_symbol',
   'clock_edges', 'clock_once_per_cycle',
@@ -34,8 +44,14 @@ THEOREMS = ['PV.C16.' + t for t in [
 # generated-from-source = model (Props/C16Gen.lean; Gen/VcdSymGen.lean is regenerated from /repo by pregen below)
 GEN_THEOREMS = ['PV.C16Gen.' + t for t in [
   'gen_symbol_eq', 'gen_symbol_injective', 'symbol_injective', 'symbol_chars_printable', 'symbol_nonempty', 'symbol_text']]
-THEOREMS = THEOREMS + GEN_THEOREMS
+# the net table of make_vcd_func (trimming loop over get_all_value_nets(), clock index, recurse_models): Props/C16n.lean
+NET_THEOREMS = ['PV.C16n.' + t for t in [
+  'kept_nets', 'clock_index', 'clock_index_skips_dropped', 'clock_unique', 'no_clock_net', 'dropped_net_irrelevant',
+  'table', 'every_signal_one_symbol', 'symbol_of_own_net', 'table_nets_disjoint', 'same_symbol_iff_same_net',
+  'symbol_text_iff_same_net', 'dropped_nets_no_symbol', 'table_replay_dump', 'table_replay_signal']]
+THEOREMS = THEOREMS + GEN_THEOREMS + NET_THEOREMS
 THEOREM_MODULE = {t: 'PymtlVerif.Props.C16Gen' for t in GEN_THEOREMS}
+THEOREM_MODULE.update({t: 'PymtlVerif.Props.C16n' for t in NET_THEOREMS})
 
 def pregen(ck):
   """translator-based tie: regenerate lean/PymtlVerif/Gen/VcdSymGen.lean from `_gen_vcd_symbol` of the current
@@ -54,8 +70,15 @@ TRUSTED = [
   'Model/VCD.lean follows VcdGenerationPass.make_vcd_func/dump_vcd_inner: net table, symbol generator, header values, '
   'last_values indexed by position in net_details, clock lines; the reader (stateAt/replay) is the model\'s own definition of '
   '"reading a VCD file" (cycle t = time 100t, value holds until changed) and is compared with the Python reader of this check on every file',
-  'the net table (widths, order, clock net, signal->net) handed to the model is read back from the file\'s own header; that signals of one '
+  'the net table (widths, order, clock net, signal->net) handed to the dump/replay model is read back from the file\'s own header; that signals of one '
   'DSL value net share a symbol is compared with top.get_all_value_nets() separately',
+  'net table (Props/C16n.lean): Model/VCD.trimLoop / declareAll / netTable are hand-transcribed from make_vcd_func (trimming loop, recurse_models) and '
+  'compared on every design with the real pass: model input = top.get_all_value_nets() re-read by the harness after the run (the cached list the pass '
+  'walked; members tagged Const / whole signal / s.clk / slice-bit-field) and the order of the `$var` lines; compared = symbol of every `$var` line, '
+  'number and order of header value lines, clock_symbol and net_details (local variables of make_vcd_func that survive in the closure of dump_vcd_inner). '
+  'Trusted: the tagging (isinstance Const, is_top_level_signal, repr == "s.clk"), that iterating a net set twice gives the same order, widths of all '
+  'members of one net being equal',
+  'print_textwave(): only the header row (one tick mark per cycle) and the rows of 1-bit signals are decoded; multi-bit rows are not checked',
   'sampling hook placed in the tick through VerilogTBGenPass.vtbgen_hooks, cross-checked against sim_eval_combinational()+read',
   'packing of bitstruct values (first field most significant) is re-implemented in the check; c16_vcdparse.py implements the VCD grammar subset used',
 ]
@@ -71,7 +94,11 @@ RULE = ('random component trees (depth 0-2; ports, port lists, interfaces, wires
         'class reuse, child lists, >94 nets) x input sequences with sticky / revisited / random / boundary-biased steps (equal modulo 2^61-1, '
         'equal low 32/64 bits, top bit only, complement, 0 <-> all ones, 1 <-> 1<<61, neighbours of 2^64; one field at a time for bitstructs) '
         'x sim_reset/manual reset/no reset; non-trivial = at least one data net changes after cycle 0 and one never changes; '
-        'distinct = distinct design seed')
+        'distinct = distinct design seed. Plus, every 14th design: a hierarchical design with 2-4 groups of value nets without a whole signal '
+        '(bit reversal, byte swap, slice-to-slice, constant-tied slices, field-to-field, constant fields) built 2 (thorough: 2-4) times in one process '
+        '(evidence: how often a dropped net was enumerated before the clock net); every 28th: 2-4 simulators alive together (same class / different '
+        'classes / mixed; random interleaving, late start, build all then run the oldest first; 40% with a never-ticked member), VCD + text wave + '
+        'print_textwave() of each checked against its own samples')
 
 # ------------------------------------------------------------------ values
 
@@ -174,8 +201,60 @@ def close_vcd(top):
       elif hasattr(o, 'close') and hasattr(o, 'name') and str(getattr(o, 'name', '')).endswith('.vcd'):
         o.close()
 
+def vcd_locals(top):
+  """local variables of make_vcd_func that survive in the closure of the dump function it returns
+  (dump_vcd -> dump_vcd_inner: clock_symbol, net_details, last_values, ...), by name; {} if there is no such closure"""
+  from pymtl3.passes.tracing.VcdGenerationPass import VcdGenerationPass
+  try: fn = top.get_metadata(VcdGenerationPass.vcd_func)
+  except Exception: return {}
+  out, seen, todo = {}, set(), [fn]
+  while todo:
+    f = todo.pop()
+    code, cells = getattr(f, '__code__', None), getattr(f, '__closure__', None) or ()
+    if code is None: continue
+    for name, cell in zip(code.co_freevars, cells):
+      try: o = cell.cell_contents
+      except ValueError: continue
+      if id(o) in seen: continue
+      seen.add(id(o))
+      if callable(o) and hasattr(o, '__closure__'): todo.append(o)
+      else: out.setdefault(name, o)
+  res = {}
+  if isinstance(out.get('clock_symbol'), str): res['clock_symbol'] = out['clock_symbol']
+  nd = out.get('net_details')
+  if isinstance(nd, list):
+    try: res['net_details'] = [(repr(sig), str(sym)) for sig, sym in nd]
+    except Exception: pass
+  return res
+
+def tagged_nets(top):
+  """top.get_all_value_nets() as the trimming loop of make_vcd_func sees it (the list the pass walked: it is cached on
+  the top; a net is a set that is not modified afterwards, so iterating it again gives the same member order):
+  per net, per member ('k',) constant / ('w', repr) whole signal / ('s', repr of its whole signal) slice, bit or field"""
+  from pymtl3.dsl import Const
+  nets = []
+  for writer, net in top.get_all_value_nets():
+    row = []
+    for x in net:
+      if isinstance(x, Const): row.append(('k',))
+      elif x.is_top_level_signal(): row.append(('w', repr(x)))
+      else: row.append(('s', repr(x.get_top_level_signal())))
+    nets.append(row)
+  return nets
+
 def simulate(ck, case):
   """build the design of `case`, simulate it, return a Run with samples and the file text"""
+  g = simulate_steps(ck, case)
+  try:
+    while True: next(g)
+  except StopIteration as e:
+    return e.value
+
+def simulate_steps(ck, case, shared=None):
+  """`simulate` as a generator, so that several simulators can be alive and advanced in turn: yields 'built' after the
+  passes were applied, 'tick' after every sim_tick / sim_reset driven from here, 'ticked' when this simulator has
+  run all its cycles; the next step collects the records (text-wave dict, print_textwave() output, the .vcd file)
+  and returns the Run. `shared` (dseed -> module) lets two simulators be instances of the very same class."""
   from pymtl3.passes.PassGroups import DefaultPassGroup
   from pymtl3.passes.backends.verilog import VerilogTBGenPass
   from pymtl3.passes.tracing.PrintTextWavePass import PrintTextWavePass
@@ -185,8 +264,15 @@ def simulate(ck, case):
   if ol:
     src, spec, feeds = G.generate_openloop(drng, case['dseed'], case['depth'], case.get('methods', 2) == 2)
   else:
-    src, spec, reps = G.generate(drng, case['dseed'], case['depth'], case.get('big', False), case.get('nonpure'), case.get('nrep', 0))
-  mod, modname = load_module(ck, src, case['dseed'])
+    src, spec, reps = G.generate(drng, case['dseed'], case['depth'], case.get('big', False), case.get('nonpure'), case.get('nrep', 0),
+                                 case.get('slicenets', False))
+  tag = f"{case['dseed']}" + (f"_i{case['inst']}" if 'inst' in case else '')
+  if shared is not None and case['dseed'] in shared:
+    mod, modname = shared[case['dseed']]
+  else:
+    mod, modname = load_module(ck, src, tag)
+    if shared is not None: shared[case['dseed']] = (mod, modname)
+  if 'iseed' in case: drng = random.Random(case['iseed'])     # another input sequence for another instance of one design
   r = Run(); r.src = src; r.spec = spec
   try:
     sigs = G.all_signals(spec)
@@ -209,7 +295,7 @@ def simulate(ck, case):
     def read_all():
       return [pack(resolve(comp_of(path), e), td) for path, e, td in sigs]
     hook_samples = []
-    vcd_base = os.path.join(ck.workdir, f'wave_{os.getpid()}_{case["dseed"]}')
+    vcd_base = os.path.join(ck.workdir, f'wave_{os.getpid()}_{tag}')
     api_samples = {}      # cycle index -> sample taken through the public API
     inports = feeds if ol else [(e, td) for e, td in spec.inports]
     cur = {e: 0 for e, _ in inports}
@@ -272,20 +358,35 @@ def simulate(ck, case):
           else:
             api_samples[len(hook_samples)] = read_all()
         top.sim_tick()
+      yield 'built'
       mode = case['reset']
       if mode == 'sim_reset':
-        top.sim_reset()
+        top.sim_reset(); yield 'tick'
       elif mode == 'manual':
         from pymtl3.datatypes import b1
         top.reset @= b1(1)
-        for _ in range(2): tick()
+        for _ in range(2):
+          tick(); yield 'tick'
         top.reset @= b1(0)
       for i in range(case['ncycles']):
         if case.get('midreset') == i: top.sim_reset()
-        tick()
+        tick(); yield 'tick'
+    yield 'ticked'
     r.samples = hook_samples
     r.api_samples = api_samples
     r.textwave = {k: list(v) for k, v in top.get_metadata(PrintTextWavePass.textwave_dict).items()}
+    r.printed = None
+    if case.get('printwave') and hook_samples and not ol:
+      # print_textwave() of this simulator (it cannot print an empty record: it indexes the first entry)
+      import contextlib, io, traceback
+      buf = io.StringIO()
+      try:
+        with contextlib.redirect_stdout(buf): top.print_textwave()
+        r.printed = buf.getvalue()
+      except Exception as e:
+        r.printed = e; r.printed_tb = traceback.format_exc()
+    r.vcd_locals = vcd_locals(top)
+    r.nets_tagged = tagged_nets(top)
     close_vcd(top)
     with open(vcd_base + '.vcd') as f: r.text = f.read()
     os.remove(vcd_base + '.vcd')
@@ -439,6 +540,11 @@ def check_design(ck, case, r, lines_out):
                                    'lengths': [len(tw[k]), N]})
         break
 
+  # ---- print_textwave() prints this simulator's own record
+  if getattr(r, 'printed', None) is not None and set(tw) == set(want_tw):
+    check_printed(r, sigs, samples, want_tw, viol)
+  nettab = nettab_input(ck, r, vcd, sigs)
+
   # ---- model side: net table as the file's header presents it
   net_syms = hsyms
   if len(set(net_syms)) != len(net_syms) or clk_sym not in net_syms:
@@ -463,6 +569,7 @@ def check_design(ck, case, r, lines_out):
     leanio.line('vcd', 'replay', [(sig_decl[i][0], sym_codes(sig_decl[i][1])) for i in rsel], events_sexp(events), N),
     leanio.line('vcd', 'decls', widths, clk, sig_net),
     leanio.line('vcd', 'edges', sym_codes(clk_sym), events_sexp(events)),
+    leanio.line('vcd', 'nettab', nettab['nets'], nettab['decl']) if nettab else leanio.line('vcd', 'nettab', [], []),
   ]
   # text-wave records of a few signals through the model (widest, a one-bit one, and the first few)
   keys = sorted(want_tw, key=lambda k: (-len(want_tw[k][0]) if want_tw[k] else 0, k))[:2] + sorted(want_tw)[:4] if N else []
@@ -484,14 +591,130 @@ def check_design(ck, case, r, lines_out):
   shared = len(sig_decl) - len(set(d[1] for d in sig_decl))
   ctx = {'vcd': vcd, 'sig_decl': sig_decl, 'is_clock': is_clock, 'samples': samples, 'N': N, 'clk_sym': clk_sym,
          'want_clk': want_clk, 'rep': rep, 'tw_keys': tw_keys, 'rsel': rsel, 'extra': extra, 'widths': widths, 'net_syms': net_syms,
+         'nettab': nettab, 'hsyms': hsyms, 'events': events,
          'stats': (changing, constant, revisit, shared)}
   lines_out.append((case, r, reqs, ctx))
   return ctx
 
+CHARS_PER_CYCLE = 6      # PrintTextWavePass default (no chars_per_cycle metadata is set here)
+
+def check_printed(r, sigs, samples, want_tw, viol):
+  """direct oracle on the text print_textwave() wrote to stdout: the header row has one tick mark per cycle this
+  simulator ran, and the row of every 1-bit signal shows, cycle by cycle, the level this simulator held
+  (a cycle is CHARS_PER_CYCLE characters: an edge or level character, then the level repeated)"""
+  N = len(samples)
+  if isinstance(r.printed, Exception):
+    viol('printwave-crash', {'error': repr(r.printed), 'traceback': r.printed_tb[-1200:], 'cycles_this_simulator_ran': N,
+                             'oracle': 'print_textwave() of a simulator that ran at least one cycle prints its record'})
+    return
+  lines = r.printed.split('\n')
+  ticks = lines[1].count('|') if len(lines) > 1 else 0
+  if ticks != N:
+    viol('printwave-cycles', {'printed_cycles': ticks, 'cycles_this_simulator_ran': N, 'header_row': lines[1][:80] if len(lines) > 1 else None,
+                              'oracle': 'print_textwave() shows one column per cycle of its own simulator'})
+    return
+  maxlen = max([5] + [len(k) - 2 for k in want_tw])
+  rows = {}
+  for l in lines[2:]:
+    name = l[:maxlen].strip()
+    if name and len(l) > maxlen and l[maxlen] == ' ': rows.setdefault(name, l[maxlen + 1:])
+  HIGH, LOW = '\u203e', '_'
+  for i, (path, e, td) in enumerate(sigs):
+    full = 's' + ''.join('.' + p_ for p_ in path) + '.' + e
+    if full not in want_tw or G.nbits(td) != 1: continue
+    row = rows.get(full[2:])
+    if row is None:
+      viol('printwave-row-missing', {'signal': full, 'rows_printed': sorted(rows)[:8]}); return
+    shown = [{HIGH: 1, LOW: 0}.get(row[t * CHARS_PER_CYCLE + 1]) if len(row) > t * CHARS_PER_CYCLE + 1 else None for t in range(N)]
+    held = [samples[t][i] for t in range(N)]
+    if shown != held:
+      t = next(j for j in range(N) if shown[j] != held[j])
+      viol('printwave-mismatch', {'signal': full, 'cycle': t, 'printed_levels': shown[t:t + 6], 'simulator_held': held[t:t + 6],
+                                  'oracle': 'levels decoded from the printed row of a 1-bit signal'})
+      return
+
+def nettab_input(ck, r, vcd, sigs):
+  """input of Model/VCD.netTable for this run: the value nets of the design in the enumeration order of
+  top.get_all_value_nets() (re-read in the harness: r.nets_tagged), members tagged and numbered by the position of
+  their whole signal among the `$var` lines of the file (= the order recurse_models declared them in).
+  Also the statistics on nets the pass drops. None if the file declares something the generator did not."""
+  key2full = {(('top',) + tuple(mangle(p) for p in path), mangle(e)): 's' + ''.join('.' + p for p in path) + '.' + e
+              for path, e, td in sigs}
+  decl_names = [key2full.get((sc, name)) for sc, name, w, sym in vcd['decls']]
+  nets = getattr(r, 'nets_tagged', None)
+  if nets is None or any(n is None for n in decl_names) or len(set(decl_names)) != len(decl_names): return None
+  ids = {n: i for i, n in enumerate(decl_names)}
+  enc, dropped, before, clk_pos = [], 0, None, None
+  for row in nets:
+    out = []
+    for m in row:
+      if m[0] == 'k': out.append('k')
+      elif m[1] not in ids: return None
+      elif m[0] == 'w': out.append('c' if m[1] == 's.clk' else ('w', ids[m[1]]))
+      else: out.append(('s', ids[m[1]]))
+    if ('w', 's.clk') in row: clk_pos, before = len(enc), dropped
+    if not any(m[0] == 'w' for m in row): dropped += 1
+    enc.append(out)
+  decl = ['c' if n == 's.clk' else ('w', i) for i, n in enumerate(decl_names)]
+  return {'nets': enc, 'decl': decl, 'names': decl_names, 'dropped': dropped, 'dropped_before_clock': before, 'clock_pos': clk_pos,
+          'decl_syms': [sym for sc, name, w, sym in vcd['decls']]}
+
+_MODEL_SYMS = []
+def model_sym(ck, n):
+  """text of Model/VCD.symbol n (through the driver; cached)"""
+  if n >= len(_MODEL_SYMS):
+    cnt = max(512, 2 * (n + 1))
+    rep = leanio.parse_sexp(ck.drv('vcd').batch([leanio.line('vcd', 'symbols', 0, cnt)])[0])[0]
+    _MODEL_SYMS[:] = [''.join(chr(int(x)) for x in codes_) for codes_ in rep]
+  return _MODEL_SYMS[n]
+
+def compare_nettab(ck, case, r, ctx, line):
+  """Model/VCD.netTable on the enumerated value nets vs what make_vcd_func computed: `$var` symbols (signal_net_mapping /
+  net_symbol_mapping), number and order of nets (header value lines), vcd_clock_net_idx and trimmed_value_nets[i][0]
+  (clock_symbol and net_details, local variables kept alive by the closure of the dump function)"""
+  nt = ctx['nettab']
+  rep = leanio.parse_sexp(line)
+  if rep[:1] != ['ok'] or len(rep) != 4:
+    ck.disagreement('Model/VCD.netTable does not raise', case, line[:200], 'the pass wrote a header'); return
+  names = nt['names']
+  mname = lambda m: 's.clk' if m == 'c' else names[int(m[1:])]
+  m_nets = [[mname(m) for m in net] for net in rep[1]]
+  m_clk = None if rep[2] == 'none' else int(rep[2])
+  m_vars = [(mname(m), int(n)) for m, n in rep[3]]
+  sym = lambda n: model_sym(ck, n)
+  got_vars = list(zip(names, nt['decl_syms']))
+  want_vars = [(x, sym(n)) for x, n in m_vars]
+  if got_vars != want_vars:
+    k = next((i for i, (a, b) in enumerate(zip(want_vars, got_vars)) if a != b), min(len(want_vars), len(got_vars)))
+    ck.disagreement('Model/VCD.netTable: symbol of every $var line', case, want_vars[k:k + 3], got_vars[k:k + 3])
+  want_h = [sym(i) for i in range(len(m_nets))]
+  if ctx['hsyms'] != want_h:
+    ck.disagreement('Model/VCD.netTable: nets (header value lines, one per kept or appended net)', case,
+                    {'nets': len(want_h), 'symbols': want_h[:6]}, {'nets': len(ctx['hsyms']), 'symbols': ctx['hsyms'][:6]})
+  loc = getattr(r, 'vcd_locals', {}) or {}
+  if 'clock_symbol' in loc: real_clk, how = loc['clock_symbol'], 'clock_symbol (closure of dump_vcd_inner)'
+  else:
+    first = [s_ for t_, s_, v_ in ctx['events'] if t_ == 0 and v_ == '1']
+    real_clk, how = (first[-1] if first else None), 'the symbol set to 1 at #0'
+    ck.hist('nettab', 'clock_symbol not in the closure: taken from the #0 block')
+  if m_clk is None or real_clk != sym(m_clk):
+    ck.disagreement('Model/VCD.netTable: vcd_clock_net_idx', case,
+                    {'index': m_clk, 'symbol': None if m_clk is None else sym(m_clk), 'net': None if m_clk is None else m_nets[m_clk][:4]},
+                    {how: real_clk, 'value_nets_dropped_before_the_clock_net': nt['dropped_before_clock']})
+  if 'net_details' in loc:
+    want_nd = [(net[0], sym(i)) for i, net in enumerate(m_nets) if i != m_clk]
+    if loc['net_details'] != want_nd:
+      k = next((i for i, (a, b) in enumerate(zip(want_nd, loc['net_details'])) if a != b), min(len(want_nd), len(loc['net_details'])))
+      ck.disagreement('Model/VCD.netTable: net_details (first member and symbol of every non-clock net)', case,
+                      want_nd[k:k + 3], loc['net_details'][k:k + 3])
+  else: ck.hist('nettab', 'net_details not in the closure')
+  ck.hist('nettab', 'compared')
+
 def compare_model(ck, case, r, replies, ctx):
   vcd, sig_decl, N = ctx['vcd'], ctx['sig_decl'], ctx['N']
-  dump_line, replay_line, decls_line, edges_line = replies[:4]
-  for k, line in zip(ctx['tw_keys'], replies[4:]):
+  dump_line, replay_line, decls_line, edges_line, nettab_line = replies[:5]
+  if ctx['nettab']: compare_nettab(ck, case, r, ctx, nettab_line)
+  for k, line in zip(ctx['tw_keys'], replies[5:]):
     mrec = leanio.parse_sexp(line)[0]
     if mrec != r.textwave[k]:
       ck.disagreement('Model/VCD.wavRecord == textwave_dict', case, {'signal': k, 'model': mrec[:4]}, r.textwave[k][:4])
@@ -585,10 +808,23 @@ def run_case(ck, case, pending):
     run_case.rejected += 1
     run_case.last_reject = tb
     return
-  ctx = check_design(ck, case, r, pending)
+  account(ck, case, r, check_design(ck, case, r, pending))
+
+def account(ck, case, r, ctx):
+  """evidence for one simulated and checked design"""
   N = len(r.samples)
   st = ctx['stats'] if ctx else (0, 0, 0, 0)
   ck.count(case, st[0] > 0 and st[1] > 0)
+  nt = ctx.get('nettab') if ctx else None
+  if nt:
+    ck.hist('value_nets_without_a_whole_signal (dropped by the pass)', min(nt['dropped'], 40) // 4 * 4 if nt['dropped'] > 3 else nt['dropped'])
+    b = nt['dropped_before_clock']
+    ck.hist('dropped_nets_enumerated_before_the_clock_net', 'clock not in a value net' if b is None else b if b < 4 else '4+')
+    if nt['dropped']:
+      STATS['with_dropped'] += 1
+      if b: STATS['dropped_before_clock'] += 1
+      if case.get('slicenets'):
+        STATS['orders'].setdefault(case['dseed'], set()).add(bool(b))
   ck.hist('depth', case['depth']); ck.hist('reset', case['reset'])
   ck.hist('components_replaced_after_elaborate', getattr(r, 'nrep', 0))
   ck.hist('tick', 'open loop (method driven, ' + case['openloop'] + ')' if case.get('openloop') else 'not pure RTL (dump before any update block)' if not r.pure else 'pure RTL, inputs poked again after eval' if case.get('poke') else 'pure RTL')
@@ -607,6 +843,106 @@ def run_case(ck, case, pending):
   r.top = None
 run_case.rejected = 0
 run_case.last_reject = ''
+STATS = {'with_dropped': 0, 'dropped_before_clock': 0, 'orders': {}, 'groups': 0, 'group_members': 0}
+
+# ------------------------------------------------------------------ designs with value nets that are dropped entirely
+
+def gen_slicenet_case(rng, tier):
+  """a hierarchical design with several value nets made only of bits / slices / struct fields / constants; it is built
+  `ninst` times in this process (the enumeration order of the nets, hence whether such a net comes before the clock
+  net, follows object ids and changes from instance to instance)"""
+  return {'dseed': rng.getrandbits(48), 'depth': rng.choice([1, 1, 2]), 'ncycles': rng.randint(3, 14),
+          'reset': rng.choices(['sim_reset', 'manual', 'none'], [4, 2, 3])[0], 'slicenets': True,
+          'ninst': 2 if tier == 'quick' else rng.randint(2, 4)}
+
+def run_slicenet_case(ck, case, pending):
+  for k in range(case['ninst']):
+    run_case(ck, dict(case, inst=k), pending)
+
+# ------------------------------------------------------------------ several waveform simulators alive in one process
+
+def gen_group(rng, tier):
+  """2-4 simulators (instances of one class, of different classes, or both), each with VCD + text-wave passes, advanced in
+  an interleaved order: `schedule` lists member numbers, the first mention of a member builds it (elaborate + passes),
+  every further mention runs one of its reset / tick steps"""
+  n = rng.choice([2, 2, 3, 4])
+  kind = rng.choice(['same class', 'different classes', 'mixed'])
+  seeds = [rng.getrandbits(48)]
+  members = []
+  for k in range(n):
+    if k and (kind == 'different classes' or (kind == 'mixed' and rng.random() < 0.5)): seeds.append(rng.getrandbits(48))
+    ds = seeds[-1] if kind != 'mixed' else rng.choice(seeds)
+    members.append({'dseed': ds, 'ncycles': rng.randint(1, 10), 'reset': rng.choices(['sim_reset', 'manual', 'none'], [4, 2, 4])[0],
+                    'inst': k, 'iseed': rng.getrandbits(32), 'printwave': True})
+  depth_of, sl_of = {}, {}
+  for m in members:
+    m['depth'] = depth_of.setdefault(m['dseed'], rng.choice([0, 0, 1]))
+    if sl_of.setdefault(m['dseed'], m['depth'] > 0 and rng.random() < 0.3): m['slicenets'] = True
+  if rng.random() < 0.4:
+    m = rng.choice(members); m['ncycles'] = 0; m['reset'] = 'none'          # a simulator that is built and never ticked
+  steps = [1 + {'sim_reset': 1, 'manual': 2, 'none': 0}[m['reset']] + m['ncycles'] for m in members]
+  mode = rng.choice(['random', 'late start', 'build all, then run the oldest first', 'random'])
+  if mode == 'random':
+    sched = [k for k in range(n) for _ in range(steps[k])]; rng.shuffle(sched)
+  elif mode == 'late start':
+    half = 1 + (steps[0] - 1) // 2
+    rest = [0] * (steps[0] - half) + [k for k in range(1, n) for _ in range(steps[k])]; rng.shuffle(rest)
+    sched = [0] * half + rest
+  else:
+    sched = list(range(n)) + [k for k in range(n) for _ in range(steps[k] - 1)]
+  return {'multi': members, 'schedule': sched, 'kind': kind, 'mode': mode}
+
+def run_group(ck, gcase, pending):
+  import traceback
+  members, sched = gcase['multi'], gcase['schedule']
+  grp = {'multi': members, 'schedule': sched}
+  mcases = [dict(m, group=grp, member=k) for k, m in enumerate(members)]
+  shared, gens, state, errors, runs = {}, {}, {}, {}, {}
+  def advance(k):
+    if state.get(k) in ('ticked', 'dead'): return
+    if k not in gens: gens[k] = simulate_steps(ck, mcases[k], shared)
+    try: state[k] = next(gens[k])
+    except InfraError: raise
+    except Exception as e:
+      state[k] = 'dead'; errors[k] = (e, traceback.format_exc())
+  try:
+    for k in sched: advance(k)
+    for k in range(len(members)):
+      while state.get(k) not in ('ticked', 'dead'): advance(k)
+    for k in range(len(members)):
+      if state[k] != 'ticked': continue
+      try: next(gens[k]); raise InfraError('C16: simulate_steps did not finish')
+      except StopIteration as e: runs[k] = e.value
+      except InfraError: raise
+      except Exception as e:
+        state[k] = 'dead'; errors[k] = (e, traceback.format_exc())
+  finally:
+    for g in gens.values(): g.close()
+  STATS['groups'] += 1
+  for k, (e, tb) in errors.items():
+    # the design (same source, same inputs) simulated as the only simulator: does it run?
+    solo = {x: v for x, v in members[k].items()}
+    solo['inst'] = f'{k}solo'
+    try: simulate(ck, solo); alone_ok = True
+    except InfraError: raise
+    except Exception: alone_ok = False
+    if alone_ok or 'VcdGenerationPass' in tb or 'PrintTextWavePass' in tb:
+      ck.violation('crash-with-another-simulator-alive', {'kind': 'crash-with-another-simulator-alive'}, mcases[k],
+                   {'error': repr(e), 'traceback': tb[-1500:], 'simulators_alive': len(members),
+                    'alone': 'the same design with the same inputs simulates and dumps without error when it is the only simulator' if alone_ok
+                             else 'fails alone as well'})
+      ck.count(mcases[k], True)
+    else:
+      ck.hist('generator', 'rejected:' + type(e).__name__)
+      run_case.rejected += 1; run_case.last_reject = tb
+  for k, r in runs.items():
+    account(ck, mcases[k], r, check_design(ck, mcases[k], r, pending))
+    STATS['group_members'] += 1
+    ck.hist('several simulators: cycles run by a member', '0 (never ticked)' if not r.samples else '1-5' if len(r.samples) < 6 else '6+')
+    r.top = None
+  ck.hist('several simulators: alive together', len(members))
+  ck.hist('several simulators: classes', gcase.get('kind', '?'))
+  ck.hist('several simulators: order', gcase.get('mode', '?'))
 
 def flush(ck, pending):
   if not pending: return
@@ -657,12 +993,25 @@ def run(ck):
   for idx in range(total):
     run_case(ck, gen_case(rng, idx, ck.tier), pending)
     done += 1
+    if idx % 14 == 5:
+      c = gen_slicenet_case(rng, ck.tier)
+      run_slicenet_case(ck, c, pending); done += c['ninst']
+    if idx % 28 == 9:
+      g = gen_group(rng, ck.tier)
+      run_group(ck, g, pending); done += len(g['multi'])
     if len(pending) >= 25:
       flush(ck, pending); gc.collect()
     if len(ck.violations) > 20: break
     if ck.elapsed() > budget: break
   flush(ck, pending)
   ck.extra_cov['designs_run'] = done
+  both = sum(1 for v in STATS['orders'].values() if len(v) == 2)
+  ck.extra_cov['dropped_nets'] = {
+    'designs_with_a_value_net_dropped_entirely': STATS['with_dropped'],
+    'of_these_a_dropped_net_was_enumerated_before_the_clock_net': STATS['dropped_before_clock'],
+    'slice_net_designs_built_several_times': len(STATS['orders']),
+    'of_these_both_orders_occurred (a dropped net before the clock net in one instance, none in another)': both}
+  ck.extra_cov['several_simulators'] = {'groups': STATS['groups'], 'simulators_checked': STATS['group_members']}
   ck.extra_cov['generator_rejects'] = run_case.rejected
   if run_case.rejected > max(3, done // 20):
     raise InfraError(f'C16: {run_case.rejected} of {done} generated designs were rejected by pymtl3; last:\n{run_case.last_reject[-1500:]}')
@@ -670,8 +1019,25 @@ def run(ck):
 def replay(ck, data):
   case = data['case']
   pending = []
-  r = simulate(ck, case)
   n0 = len(ck.violations)
+  if 'group' in case or 'slicenets' in case:
+    # several simulators in one process / a design whose outcome depends on the enumeration order of its nets
+    # (rebuilt up to 8 times): run through the same path as the check
+    if 'group' in case:
+      print(f"group of {len(case['group']['multi'])} simulators, schedule {case['group']['schedule']}; reported member {case.get('member')}")
+      run_group(ck, case['group'], pending)
+    else:
+      for k in range(8):
+        run_case(ck, dict(case, inst=f'r{k}'), pending)
+        if len(ck.violations) > n0: break
+      print(f'design {case["dseed"]} built {k + 1} time(s)')
+    print(f'case={case}')
+    for v in ck.violations[n0:]:
+      print('oracle:', v.kind, v.detail)
+    flush(ck, pending)
+    for b in ck.breaks: print('model vs impl:', b['correspondence'], 'model=', b['model'], 'impl=', b['impl'])
+    return 1 if len(ck.violations) > n0 else 0
+  r = simulate(ck, case)
   ctx = check_design(ck, case, r, pending)
   print(f'case={case}\nsignals={len(r.sigs)} cycles={len(r.samples)}')
   for v in ck.violations[n0:]:
